@@ -251,7 +251,7 @@ Proof.
     rewrite Forall_forall in F. specialize (F part (csr_find_In _ _ _ _ Hf)).
     split; [exact F|]. rewrite (csr_unrank_groups_length _ _ _ _ _ Hcr).
     unfold group_partition. rewrite group_by_concat. reflexivity.
-  - replace (n =? 1) with false in Hp by (symmetry; apply Z.eqb_neq; lia). discriminate.
+  - replace (n =? 1) with false in Hp by (symmetry; apply Z.eqb_neq; lia). simpl in Hp. discriminate.
 Qed.
 
 (* ---- the main theorem ---- *)
